@@ -7,6 +7,9 @@ import WK.Model.ReplJudge
      (`viol:chain-broken`, `viol:leo-mismatch`, `viol:store-unreadable`);
    * committed ≤ LEO and committed never moves backwards
      (`viol:committed-gt-leo`, `viol:committed-regressed`);
+   * a committed watermark only ever moves over entries an owner already declared quorum-durable
+     (receipt / successful install / earlier watermark), or — during an install — over entries
+     ≥ q voters hold (`viol:committed-covers-unacknowledged-entry`, `…-entry-without-quorum`);
    * any two voters hold the same identity at every offset ≤ both committed
      watermarks (`viol:committed-disagree`, with the suffix
      `:responder-holders-lt-quorum` when one of the two entries was dropped by a
@@ -47,6 +50,28 @@ def pairVerdict (j : JState) (cur : Obs) (v w : Nat) : String :=
   | some (i, x, y) =>
     if j.taintedAt i x ∨ j.taintedAt i y then "viol:committed-disagree:" ++ knownSuffix else "viol:committed-disagree"
 
+/-- entries of voter `v` that its committed watermark covers now and did not cover (with this
+    identity) before the op -/
+def newlyCovered (prev cur : SObs) : List (Nat × Nat) :=
+  ((List.range cur.hw).map (· + 1)).filterMap (fun idx =>
+    match cur.entry idx with
+    | some e => if idx ≤ prev.hw && prev.holds idx e.dig then none else some (idx, e.dig)
+    | none => none)
+
+/-- a committed watermark may only move over entries some owner already declared quorum-durable
+    (a receipt, a successful install, an earlier watermark); during an install — whose repair and
+    barrier commit the selected prefix — over entries that ≥ q voters hold -/
+def coverVerdict (j : JState) (op : Op) (cur : Obs) (v : Nat) : String :=
+  let fresh := newlyCovered (j.prev.store v) (cur.store v)
+  match op with
+  | .cfg .. => "ok"
+  | .install _ a _ _ =>
+    if fresh.all (fun x => decide ((cur.holders j.n x.1 x.2).length ≥ a.q)) then "ok"
+    else "viol:committed-covers-entry-without-quorum"
+  | _ =>
+    if fresh.all (fun x => j.committed.any (fun r => r.idx == x.1 && r.dig == x.2)) then "ok"
+    else "viol:committed-covers-unacknowledged-entry"
+
 def allPairs : List Nat → List (Nat × Nat)
   | [] => []
   | v :: vs => vs.map (fun w => (v, w)) ++ allPairs vs
@@ -57,7 +82,8 @@ def judge (j : JState) (op : Op) (cur : Obs) : String :=
     | _ => false
   let sv := (votersUpTo cur.stores.length).map (fun v =>
     storeVerdict (if fresh then {} else j.prev.store v) (cur.store v))
-  match firstBad sv with
+  let cv := (votersUpTo cur.stores.length).map (coverVerdict j op cur)
+  match firstBad (sv ++ cv) with
   | "ok" =>
     -- taint of this very op counts (the dropping install may be the one that exposes nothing yet)
     let j' := j.update op cur
